@@ -5,7 +5,7 @@ import ast
 import sys
 
 from functools import partial
-from inspect import Parameter, Signature
+from inspect import Parameter, Signature, cleandoc
 from itertools import chain
 from pathlib import Path
 from typing import (
@@ -718,7 +718,7 @@ class ModuleVistor(NodeVisitor):
             return
 
         if obj is not None:
-            obj.docstring = docstring
+            obj.docstring = cleandoc(docstring)
             # TODO: It might be better to not perform docstring parsing until
             #       we have the final docstrings for all objects.
             obj.parsed_docstring = None
